@@ -38,7 +38,9 @@ CHECKS["C04"] = (
     "owns every lock and file action (fasteners trylock/unlock and the library stream are wrapped at run time) and executes EVERY schedule with <= 2 (thorough: 3) preemptions; a second "
     "family injects one exception at every fault point of a session (body, encoder, n-th file write, close, open). Oracles: file-level writer exclusion monitor, lock compatibility, no "
     "deadlock, state idle/file closed/lock acquirable by a third process after every session, final contents (fresh reader + independent parser) vs. the records of completed sessions, "
-    "readers see complete committed records only; each reported schedule is replayed and must give the same verdict.",
+    "readers see complete committed records only; each reported schedule is replayed and must give the same verdict. A TLA+ session-level model (models/Sessions.tla) is explored exhaustively by TLC; ALL of its "
+    "behaviours are replayed against the implementation through the scheduler (the implementation must follow each and satisfy the same oracles), and every lock-level event sequence the explorer observes on the "
+    "implementation must be a behaviour of the model (conformance in both directions). Handle construction itself runs under the scheduler in a dedicated family (concurrent creation of the library).",
     "Scheduling points are Python-level lock/file calls, so preemption inside one call and real multi-core simultaneity are not explored; the OS fcntl lock is trusted; bounded programs (<= 4..5 sessions, 2 records per writer).",
     "4 C04",
 )
@@ -140,6 +142,7 @@ def main():
             {"name": "seqx", "path": "mc/seqx.py", "serves_properties": sorted(k for k, v in CHECKS.items() if v[0] == "seqx"), "kind_free_text": "explicit-state BFS over histories of real operations, replay-from-scratch, canonical-state dedup, differential check on collisions"},
             {"name": "crashx", "path": "mc/crashx.py", "serves_properties": sorted(k for k, v in CHECKS.items() if v[0] == "crashx"), "kind_free_text": "every byte prefix of a recorded write history x recovery histories"},
             {"name": "schedx", "path": "mc/schedx.py", "serves_properties": sorted(k for k, v in CHECKS.items() if v[0] == "schedx"), "kind_free_text": "controlled scheduler over real OS processes, preemption-bounded exhaustive schedule enumeration + fault injection"},
+            {"name": "tlcx", "path": "mc/tlcx.py", "serves_properties": ["C04"], "kind_free_text": "TLC explicit-state exploration of models/Sessions.tla; all behaviours extracted (history variable) and replayed against the implementation; implementation traces checked for membership"},
             {"name": "enumx", "path": "mc/props", "serves_properties": sorted(k for k, v in CHECKS.items() if v[0] == "enumx"), "kind_free_text": "bounded-exhaustive enumeration of inputs/configurations/environment answers against an independent reference"},
         ],
         "checks": checks,
